@@ -4,7 +4,7 @@
    token stream from the real implementation. *)
 From Coq Require Import String Ascii.
 From Radius Require Import Base.Bytes Base.Guard Base.Res Gen.Consts
-  Model.Attrs Model.Packet Model.Passwords Model.Codecs Model.Client Model.Exchange Model.Dict Model.DictMerge Model.MSCHAP Spec.C19 Model.Dispatch Spec.C06 Model.Shutdown Model.ShutdownSched Spec.C05 Spec.C10 Spec.C09 Spec.C01 Spec.C03 Spec.C04 Spec.C11.
+  Model.Attrs Model.Packet Model.Passwords Model.Codecs Model.Client Model.Exchange Model.Dict Model.DictMerge Model.MSCHAP Spec.C19 Model.Vendor Model.Helpers Model.Dispatch Spec.C06 Model.Shutdown Model.ShutdownSched Spec.C05 Spec.C10 Spec.C09 Spec.C01 Spec.C03 Spec.C04 Spec.C11.
 From Radius Require Import Crypto.MD5 Crypto.SHA1 Crypto.MD4 Crypto.DES Crypto.UTF16.
 Open Scope list_scope.
 Open Scope nat_scope.
@@ -426,6 +426,70 @@ Definition dispatch_mschap (name : bytes) (bs : list bytes) (zs : list Z) : opti
   else if name_is name "s.makekey" then Some (t_res_s (spec_make_key sha1 md4 utf8_to_utf16le (b1 bs) (b2 bs) (z1 zs =? 1)%Z) t_bytes)
   else None.
 
+(* ---- C12 / C13 / C14 ---- *)
+Definition kind_of (k nb : Z) : hkind :=
+  if (k =? 0)%Z then KBytes else if (k =? 1)%Z then KConcat else if (k =? 2)%Z then KIP4 else if (k =? 3)%Z then KIP6
+  else if (k =? 4)%Z then KIFID else if (k =? 5)%Z then KPrefix else if (k =? 6)%Z then KDate
+  else if (k =? 7)%Z then KInt (Z.to_nat nb) else KByte.
+Definition t_gv (d : hdesc) (v : gv) : list tok :=
+  match h_kind d with
+  | KInt _ | KDate | KByte => [TI (g_u v)]
+  | KPrefix => [TB (g_b v); TB (g_mask v)]
+  | _ => [TB (g_b v)]
+  end.
+Definition t_tv (d : hdesc) (x : N * gv) : list tok := TI (Z.of_N (fst x)) :: t_gv d (snd x).
+
+(* ops: zs triples (opcode, tag, u); bs triples (value, mask, salt) *)
+Fixpoint run_hops (d : hdesc) (p q : packet) (zs : list Z) (bs : list bytes) : list tok :=
+  match zs, bs with
+  | o :: tag :: u :: zs', vb :: mk :: salt :: bs' =>
+    let v := mkgv vb u mk in
+    if (o =? 0)%Z then
+      match h_add md5 d p salt (Z.to_N tag) v with
+      | Ok p' => TI 0 :: t_attrs (pattrs p') ++ run_hops d p' q zs' bs'
+      | Err _ => TI 1 :: t_attrs (pattrs p) ++ run_hops d p q zs' bs'
+      | _ => [TI 2]
+      end
+    else if (o =? 1)%Z then
+      match h_set md5 d p salt (Z.to_N tag) v with
+      | Ok p' => TI 0 :: t_attrs (pattrs p') ++ run_hops d p' q zs' bs'
+      | Err _ => TI 1 :: t_attrs (pattrs p) ++ run_hops d p q zs' bs'
+      | _ => [TI 2]
+      end
+    else if (o =? 2)%Z then
+      match h_del d p with
+      | Ok p' => TI 0 :: t_attrs (pattrs p') ++ run_hops d p' q zs' bs'
+      | _ => [TI 2]
+      end
+    else if (o =? 3)%Z then
+      (match h_lookup md5 d p q with
+       | Ok x => TI 0 :: t_tv d x
+       | Err e => [TI 1; TI (if (e =? E_noattr)%N then 40 else 8)]
+       | _ => [TI 2]
+       end) ++ run_hops d p q zs' bs'
+    else
+      (match h_gets md5 d p q with
+       | Ok xs => TI 0 :: TI (zlen xs) :: flat_map (t_tv d) xs
+       | Err _ => [TI 1]
+       | _ => [TI 2]
+       end) ++ run_hops d p q zs' bs'
+  | _, _ => []
+  end.
+
+Definition dispatch_helper (name : bytes) (bs : list bytes) (zs : list Z) : option (list tok) :=
+  if name_is name "m.helper" || name_is name "s.helper" then
+    match zs, bs with
+    | ht :: k :: nb :: tg :: enc :: sv :: sz :: vv :: vid :: c :: idn :: n :: zs', au :: sec :: qau :: bs' =>
+      let d := mkhdesc ht (kind_of k nb) (tg =? 1)%Z enc (if (sv =? 1)%Z then Some sz else None)
+                       (if (vv =? 1)%Z then Some (Z.to_N vid) else None) in
+      let '(l, (zs'', bs'')) := take_attrs (Z.to_nat n) zs' bs' in
+      let p := mkpacket c (Z.to_N idn) au sec l in
+      let q := mkpacket 1 (Z.to_N idn) qau sec [] in
+      Some (run_hops d p q zs'' bs'')
+    | _, _ => Some [TI (-92)]
+    end
+  else None.
+
 Definition dispatch (name : bytes) (bs : list bytes) (zs : list Z) : list tok :=
   if name_is name "m.attrs_run" then run_attrs false bs zs
   else if name_is name "s.attrs_run" then run_attrs true bs zs
@@ -440,7 +504,8 @@ Definition dispatch (name : bytes) (bs : list bytes) (zs : list Z) : list tok :=
   match dispatch_dict name bs zs with Some t => t | None =>
   match dispatch_merge name bs zs with Some t => t | None =>
   match dispatch_mschap name bs zs with Some t => t | None =>
-  [TI (-97)] end end end end end end end end end end.
+  match dispatch_helper name bs zs with Some t => t | None =>
+  [TI (-97)] end end end end end end end end end end end.
 
 Require Extraction.
 Require Import ExtrOcamlBasic.
